@@ -19,7 +19,10 @@ CONSTANTS MaxLen,
 Edit == {"insert", "setitem", "delitem", "append", "extend", "iadd", "pop", "remove", "reverse",
          "setslice", "delslice", "clear_refill",
          "insert_python", "insert_python_last", "append_python", "insert_magic_int",
-         "insert_function_call", "insert_python_obj"}
+         "insert_function_call", "insert_python_obj",
+         \* edits whose argument is an iterable that RAISES part-way (the caller catches the exception and goes on using the
+         \* object): whatever was consumed before is in the list, so the same coherence is owed
+         "extend_raises", "iadd_raises", "setslice_raises"}
 View == {"source", "ast", "imports", "calls", "flags", "severity", "findings", "unused", "nonstd", "unsafe"}
 UsesProps == {"imports", "calls", "flags", "severity", "findings", "nonstd", "unsafe"}
 
@@ -33,7 +36,7 @@ DoEdit(e) ==
   /\ ver' = ver + 1
   /\ valid' \in BOOLEAN
   /\ IF e \in {"insert", "append", "extend", "iadd", "insert_python", "insert_python_last", "append_python",
-               "insert_magic_int", "insert_function_call", "insert_python_obj", "clear_refill"} /\ ~ResetOnInsert
+               "insert_magic_int", "insert_function_call", "insert_python_obj", "clear_refill", "extend_raises", "iadd_raises"} /\ ~ResetOnInsert
      THEN UNCHANGED <<astOf, propsOf, partial>>
      ELSE astOf' = -1 /\ propsOf' = -1 /\ partial' = FALSE
   /\ hist' = Append(hist, e)
